@@ -25,10 +25,12 @@ CONSTANTS Strategy, Files, Objs, FileOf, Keys, Caps, BigCap, MaxNest,
           Dev_MemFlushOwnData,        \* shared-memory _flush saves the flushing object's own data
           Dev_MemStoreNotFollow,      \* save-to-buffer does not re-point the entry at rebound data (clear lost)
           Dev_CapNotRestoredOnError,  \* capacity not restored when the exit flush raises
-          Dev_LoseRegOnError          \* still-buffered collections forgotten when a flush fails
-VARIABLES disk, priv, shared, entry, reg, stk, cap, gold, last, hist
-bvars == <<disk, priv, shared, entry, reg, stk, cap, gold, last, hist>>
-bview == <<disk, priv, shared, entry, reg, stk, cap, gold>>
+          Dev_LoseRegOnError,         \* still-buffered collections forgotten when a flush fails
+          Dev_MemKeepConflictingCopy  \* forced flush keeps a conflicting copy, re-based on the outside version (before 506ba58)
+VARIABLES disk, priv, shared, entry, reg, stk, cap, gold, last, hist,
+          xd        \* xd[r]: an outside writer changed file r while the copy now in the buffer was buffered
+bvars == <<disk, priv, shared, entry, reg, stk, cap, gold, last, hist, xd>>
+bview == <<disk, priv, shared, entry, reg, stk, cap, gold, xd>>
 
 Ser == Strategy = "serialized"
 NoEntry == [e |-> FALSE, contents |-> {}, base |-> {}, ver0 |-> 0, mod |-> FALSE]
@@ -77,11 +79,12 @@ FlushObj(o, force, d, pr, sh, en, stack) ==
                 towrite == IF Dev_MemFlushOwnData THEN Data(o, pr, sh, en) ELSE e.contents
                 d2 == IF e.mod /\ ~conflict THEN [d EXCEPT ![r] = [doc |-> towrite, ver |-> @.ver + 1]] ELSE d
                 sh2 == IF e.mod /\ ~conflict /\ ~Dev_MemFlushOwnData THEN [sh EXCEPT ![o] = TRUE] ELSE sh
-                en2 == IF ~force THEN [en EXCEPT ![r] = NoEntry]
+                evict == ~force \/ (conflict /\ ~Dev_MemKeepConflictingCopy)
+                en2 == IF evict THEN [en EXCEPT ![r] = NoEntry]
                        ELSE [en EXCEPT ![r] = [e EXCEPT !.ver0 = d2[r].ver, !.mod = FALSE]]
                 \* objects aliasing a dropped store keep its content as their own data
-                pr2 == IF ~force THEN [x \in Objs |-> IF FileOf[x] = r /\ sh2[x] THEN e.contents ELSE pr[x]] ELSE pr
-                sh3 == IF ~force THEN [x \in Objs |-> IF FileOf[x] = r THEN FALSE ELSE sh2[x]] ELSE sh2
+                pr2 == IF evict THEN [x \in Objs |-> IF FileOf[x] = r /\ sh2[x] THEN e.contents ELSE pr[x]] ELSE pr
+                sh3 == IF evict THEN [x \in Objs |-> IF FileOf[x] = r THEN FALSE ELSE sh2[x]] ELSE sh2
             IN [disk |-> d2, priv |-> pr2, shared |-> sh3, entry |-> en2, err |-> conflict]
 
 (***************************************************************************)
@@ -118,6 +121,8 @@ Register(rg, o) == IF \E i \in 1..Len(rg) : rg[i] = o THEN rg ELSE Append(rg, o)
 GoldAfter(g, errs, en2, d2) == [r \in Files |-> IF ~en2[r].e THEN d2[r].doc ELSE g[r]]
 ApplyOp(s, kind, k) == CASE kind = "add" -> s \cup {k} [] kind = "del" -> s \ {k} [] kind = "clear" -> {} [] OTHER -> s
 Log(l) == last' = l /\ hist' = Append(hist, l)
+\* once a copy has left the buffer, what happened to the file before is no longer its business
+XdAfter == xd' = [r \in Files |-> IF entry'[r].e THEN xd[r] ELSE FALSE]
 
 OpUnbuffered(o, kind, k) ==
   LET r == FileOf[o]
@@ -126,7 +131,7 @@ OpUnbuffered(o, kind, k) ==
      /\ disk' = IF kind = "read" THEN disk ELSE [disk EXCEPT ![r] = [doc |-> s2, ver |-> @.ver + 1]]
      /\ gold' = IF kind = "read" THEN gold ELSE [gold EXCEPT ![r] = s2]
      /\ Log([a |-> "op", o |-> o, kind |-> kind, k |-> k, ret |-> disk[r].doc, raised |-> {}])
-     /\ UNCHANGED <<shared, entry, reg, stk, cap>>
+     /\ UNCHANGED <<shared, entry, reg, stk, cap, xd>>
 
 OpBuffered(o, kind, k) ==
   LET r == FileOf[o]
@@ -147,7 +152,7 @@ OpBuffered(o, kind, k) ==
        THEN /\ disk' = c1.disk /\ priv' = c1.priv /\ shared' = c1.shared /\ entry' = c1.entry /\ reg' = c1.remaining
             /\ gold' = GoldAfter(gold, c1.errs, c1.entry, c1.disk)
             /\ Log([a |-> "op", o |-> o, kind |-> kind, k |-> k, ret |-> seen, raised |-> c1.errs])
-            /\ UNCHANGED <<stk, cap>>
+            /\ XdAfter /\ UNCHANGED <<stk, cap>>
        ELSE \* ---- mutate, then _save_to_buffer
             LET cur == IF loads THEN (IF Ser THEN c1.priv[o] ELSE Data(o, c1.priv, c1.shared, c1.entry)) ELSE {}
                 newdoc == ApplyOp(cur, kind, k)
@@ -167,23 +172,24 @@ OpBuffered(o, kind, k) ==
             IN /\ disk' = c2.disk /\ priv' = c2.priv /\ shared' = c2.shared /\ entry' = c2.entry /\ reg' = c2.remaining
                /\ gold' = GoldAfter([gold EXCEPT ![r] = newdoc], c2.errs, c2.entry, c2.disk)
                /\ Log([a |-> "op", o |-> o, kind |-> kind, k |-> k, ret |-> seen, raised |-> c2.errs])
-               /\ UNCHANGED <<stk, cap>>
+               /\ XdAfter /\ UNCHANGED <<stk, cap>>
 
 Op(o, kind, k) == SameState(FileOf[o]) /\ IF Buffered(o) THEN OpBuffered(o, kind, k) ELSE OpUnbuffered(o, kind, k)
 
 EnterObj(o) == /\ stk' = Append(stk, OFrame(o)) /\ Log([a |-> "enterO", o |-> o])
-               /\ UNCHANGED <<disk, priv, shared, entry, reg, cap, gold>>
+               /\ UNCHANGED <<disk, priv, shared, entry, reg, cap, gold, xd>>
 EnterBackend(c) ==
   LET c2 == IF c = NONE THEN cap ELSE c
       x == Capacity(disk, priv, shared, entry, reg, c2, stk)
   IN /\ stk' = Append(stk, BFrame(c # NONE, cap)) /\ cap' = c2
      /\ disk' = x.disk /\ priv' = x.priv /\ shared' = x.shared /\ entry' = x.entry /\ reg' = x.remaining
      /\ gold' = GoldAfter(gold, x.errs, x.entry, x.disk) /\ Log([a |-> "enterB", c |-> c, raised |-> x.errs])
+     /\ XdAfter
 SetCapacity(c) ==
   LET x == Capacity(disk, priv, shared, entry, reg, c, stk)
   IN /\ cap' = c /\ disk' = x.disk /\ priv' = x.priv /\ shared' = x.shared /\ entry' = x.entry /\ reg' = x.remaining
      /\ gold' = GoldAfter(gold, x.errs, x.entry, x.disk)
-     /\ Log([a |-> "setcap", c |-> c, raised |-> x.errs]) /\ UNCHANGED stk
+     /\ Log([a |-> "setcap", c |-> c, raised |-> x.errs]) /\ XdAfter /\ UNCHANGED stk
 ExitTop ==
   /\ stk # <<>>
   /\ LET fr == stk[Len(stk)]
@@ -205,11 +211,12 @@ ExitTop ==
         /\ disk' = y.disk /\ priv' = y.priv /\ shared' = y.shared /\ entry' = y.entry /\ reg' = y.remaining
         \* what was not written because of a conflict is given up: the user sees the file again
         /\ gold' = GoldAfter(gold, x.errs \cup y.errs, y.entry, y.disk)
-        /\ Log([a |-> "exit", raised |-> x.errs \cup y.errs])
+        /\ Log([a |-> "exit", raised |-> x.errs \cup y.errs]) /\ XdAfter
 External(r, s) ==
   /\ disk' = [disk EXCEPT ![r] = [doc |-> s, ver |-> @.ver + 1]]
   /\ gold' = IF entry[r].e THEN gold ELSE [gold EXCEPT ![r] = s]
   /\ Log([a |-> "ext", r |-> r, s |-> s])
+  /\ xd' = [xd EXCEPT ![r] = entry[r].e]
   /\ UNCHANGED <<priv, shared, entry, reg, stk, cap>>
 
 Init == /\ disk \in [Files -> {[doc |-> s, ver |-> 0] : s \in {{}, {"a"}}}]
@@ -217,6 +224,7 @@ Init == /\ disk \in [Files -> {[doc |-> s, ver |-> 0] : s \in {{}, {"a"}}}]
         /\ entry = [r \in Files |-> NoEntry] /\ reg = <<>> /\ stk = <<>> /\ cap = BigCap
         /\ gold = [r \in Files |-> disk[r].doc]
         /\ last = [a |-> "init"] /\ hist = <<[a |-> "init", disk |-> disk]>>
+        /\ xd = [r \in Files |-> FALSE]
 
 \* objects of one file enter / leave obj.buffered together (see MC_BufContract): simplified here to
 \* "an O frame may only be pushed for all objects of the file in a row" by allowing ops only in SameState
@@ -248,6 +256,9 @@ C07_NoSilentOverwrite ==
   [][\A r \in Files : (last'.a # "ext" /\ Conflict(r) /\ (IF Ser THEN entry[r].contents # entry[r].base ELSE entry[r].mod)
                        /\ ~(last'.a = "op" /\ ~Buffered(last'.o)))
         => disk'[r] = disk[r]]_bvars
+\* C07 (strong form): while a copy that was buffered when an outside writer changed the file is still in the buffer,
+\* the library never writes that file - not at this flush and not at any later one
+C07_OutsideChangeSurvives == [][\A r \in Files : (last'.a # "ext" /\ xd[r]) => disk'[r] = disk[r]]_bvars
 \* C15: outside all contexts the buffer is empty; the size respects the capacity; the capacity is restored
 C15_EmptyOutside == stk = <<>> => (\A r \in Files : ~entry[r].e)     \* (stale registrations may remain: harmless)
 C15_WithinCapacity == SizeOf(entry) <= cap \/ last.a = "ext"
